@@ -15,3 +15,15 @@ pub fn g1_good_swap(ops: &mut Vec<DiffOp>, pointer: usize) {
         ops[pointer + 1] = DiffOp::Equal { old_index: 1, new_index: 1, len: 1 };
     }
 }
+
+/// control G7: equal items are handed to a neighbour whose tag was never tested
+pub fn g7_bad_absorb<Old, New>(ops: &mut Vec<DiffOp>, old: &Old, new: &New, pointer: usize)
+where
+    Old: std::ops::Index<usize> + ?Sized,
+    New: std::ops::Index<usize> + ?Sized,
+{
+    let suffix_len = crate::algorithms::utils::common_suffix_len(old, 0..1, new, 0..1);
+    if pointer + 1 < ops.len() {
+        ops[pointer + 1].grow_left(suffix_len);
+    }
+}
